@@ -23,7 +23,8 @@ def run(ctx):
     # per-instance match: cached_property on instance methods only
     n = 0
     for ci in p.all_classes():
-        raw = ci.attrs.get("_match")
+        from ..roles import match_slot
+        raw = ci.attrs.get(match_slot(p))
         if isinstance(raw, FuncInfo):
             n += 1
             ok = raw.kind == "property" and ("cached_property" in raw.decorators or "property" in raw.decorators or bool(getattr(raw, "descriptor_kinds", None)))
